@@ -1,8 +1,9 @@
 package worker
 
 import (
-	"strconv"
 	"fmt"
+	"reflect"
+	"strconv"
 	"strings"
 
 	"github.com/tyler-sommer/stick"
@@ -108,6 +109,10 @@ func opIterate(req *sb.Req) *sb.Resp {
 						for j := 0; j < 12; j++ {
 							mp[fmt.Sprintf("zz-added-%d", j)] = j
 						}
+					}
+					// ... or shortens the list it is iterating through a pointer
+					if rp := reflect.ValueOf(c); rp.Kind() == reflect.Ptr && !rp.IsNil() && rp.Elem().Kind() == reflect.Slice {
+						rp.Elem().Set(rp.Elem().Slice(0, rp.Elem().Len()/2))
 					}
 				}
 				return len(it.L) > 200, nil
